@@ -27,8 +27,8 @@ def _save_func(m):
     # the replace may have been moved out of the class (a module level helper / context manager doing write-then-rename): then
     # the save path of the mix-in is no longer the unit these rules can decide - an analysis error, not a violation
     for q, fi in m.functions.items():
-        if fi.module.name == ci.module.name and fi.cls is None and any(call_name(c) in ('os.rename', 'os.replace') for c in calls_in(fi.node)):
-            raise AnchorMissing(f'the rename onto the persistent file lives in the module level function {fi.name}, outside PersistentMixin: '
+        if fi.module.name == ci.module.name and fi.cls is not ci and any(call_name(c) in ('os.rename', 'os.replace') for c in calls_in(fi.node)):
+            raise AnchorMissing(f'the rename onto the persistent file lives in {fi.qualname.rpartition("persistent.")[2]}, outside PersistentMixin: '
                                 'the save path is not decided in this form')
     raise AnchorMissing('no method of PersistentMixin renames a file (atomic replace missing)', violation='frappy.persistent.PersistentMixin:atomic replace by rename')
 
@@ -495,3 +495,28 @@ def init_writes_are_taken_out_of_the_write_dict(ctx):
                       'neither an explicit nor an automatic save writes the file, the stored values go stale without any message', g)
     if not n:
         raise AnchorMissing('no access to self.writeDict found in writeInitParams')
+
+
+@rule('C17.R8', min_instances=1)
+def loading_restores_every_stored_parameter(ctx):
+    """PersistentMixin.loadParameters: the loop that sets the restored values (`setattr(self, pname, value)`) runs over ALL
+    stored values - what loadPersistentData() returned - and not over the subset that has a write_<param> method (that subset
+    is only what has to be written to the hardware).  Otherwise a persistent parameter without write method keeps its old
+    value after loading, and the next save overwrites the stored one"""
+    m = ctx.m
+    f = m.method(PM, 'loadParameters', inherited=False)
+    ctx.analysed(f)
+    loops = [l for l in body_walk(f.node) if isinstance(l, ast.For) and any(isinstance(c.func, ast.Name) and c.func.id == 'setattr' and c.args and src(c.args[0]) == 'self'
+                                                                              for c in calls_in(l))]
+    if not loops:
+        raise AnchorMissing('the loop setting the restored values (setattr(self, pname, value)) not found in loadParameters')
+    for l in loops:
+        it = resolved(l.iter, f.node)
+        filtered = [g for g in ast.walk(it) if isinstance(g, (ast.DictComp, ast.ListComp, ast.GeneratorExp, ast.SetComp)) and any(gen.ifs for gen in g.generators)]
+        if filtered:
+            ctx.bad(f'{f.qualname}:every stored value is set', l, f'the restored values are set from `{src(filtered[0])[:120]}`: only the parameters passing that filter get '
+                    'their stored value back - a persistent parameter without write method is not restored, and the next save overwrites what was stored', f)
+        elif 'loadPersistentData' in src(it):
+            ctx.ok(f'{f.qualname}:every stored value is set', l, f'iterates `{src(it)[:80]}`', f)
+        else:
+            ctx.undecided(f'{f.qualname}:every stored value is set', l, f'`{src(it)[:80]}`: origin of the iterated values not recognised', f)
